@@ -582,12 +582,45 @@ def _nonempty_list_expr(e, f, anc):
             if a.get("k") == "match" and src(strip(a["e"])).replace(" ", "").endswith(f"{name}.last()") or \
                     (a.get("k") == "match" and "statements.last()" in src(strip(a["e"])).replace(" ", "")):
                 return "replace-last"
+        # (e) a private helper that builds the block from (a copy of) its parameter: non-empty when it is at every call site - the call sits in
+        #     the `Some(..)` arm of `<argument>.last()` (the helper replaces the last statement of a non-empty block)
+        params = [i_.get("pat", {}).get("name") for i_ in f["sig"]["inputs"]]
+        pname = name if name in params else None
+        if pname is None:
+            for n in walk(f["body"]):
+                if n.get("k") == "local" and n.get("init") is not None and name in [p_["name"] for p_ in walk(n["pat"]) if p_.get("k") == "pident"]:
+                    for m in walk(n["init"]):
+                        if m.get("k") == "path" and m["p"] in params and m["p"] != name or (m.get("k") == "path" and m["p"] == name and name in params):
+                            pname = m["p"]
+        if pname is not None and f.get("vis", "") == "" and f.get("impl_of") is None and _SYN is not None:
+            from .quant import _ancestors
+            idx = params.index(pname)
+            sites_ok, n_sites = True, 0
+            for g in _SYN.fns:
+                if not g.get("body") or g["mod"] != f["mod"]:
+                    continue
+                anc_g = None
+                for c_ in walk(g["body"]):
+                    if c_.get("k") == "call" and c_["f"].get("k") == "path" and c_["f"]["p"] == f["name"] and len(c_["args"]) == len(params):
+                        n_sites += 1
+                        if anc_g is None:
+                            anc_g = _ancestors(g["body"])
+                        arg = src(strip(c_["args"][idx])).replace(" ", "")
+                        if not any(a_.get("k") == "match" and src(strip(a_["e"]), -30).replace(" ", "").endswith(f"{arg}.last()") for a_ in anc_g.get(id(c_), [])):
+                            sites_ok = False
+            if n_sites and sites_ok:
+                return "replace-last (at every call site of the helper)"
         # (d) a loop that pushed at least ... not recognised
     return None
 
 
+_SYN = None
+
+
 def _preconditions(chk, facts, pm, failing):
+    global _SYN
     syn = facts.syn
+    _SYN = syn
     # the set of preconditions the templates really have (measured by R-C02-1) must be the reviewed set
     for t in sorted(set(failing) | set(PRECONDITIONS)):
         if t not in failing:
